@@ -238,6 +238,21 @@ func convertToInt(other Object) (Int, bool) {
 	return 0, false
 }
 
+// repeatCount is convertToInt for the count of a sequence repetition:
+// an int in its big representation counts too (-2**63 as a literal is
+// one), and one that does not fit the machine word is an OverflowError
+func repeatCount(other Object) (Int, bool, error) {
+	if big, isBig := other.(*BigInt); isBig {
+		n, err := big.Int()
+		if err != nil {
+			return 0, false, err
+		}
+		return n, true, nil
+	}
+	n, ok := convertToInt(other)
+	return n, ok, nil
+}
+
 // FIXME overflow should promote to BigInt in all these functions
 
 func (a Int) M__neg__() (Object, error) {
